@@ -59,6 +59,9 @@ OPS = {
     "write-exec-d-two": (RICH, [KEEP, {"op": "write_exec_d", "name": "a", "programs": {"p3": "p3", "p1": "p2"}}]),
     "layerenv-write": (RICH, [{"op": "env_write", "name": "a", "env": ENV_OTHER}]),
     "layerenv-read": (RICH, [{"op": "env_read", "name": "a"}]),
+    # the same writes into a layer directory that has no write bit (restored read-only): READONLY marks it
+    "write-env-readonly-dir": (RICH + ["READONLY"], [KEEP, {"op": "write_env", "name": "a", "env": ENV_OTHER}]),
+    "handle-update-readonly-dir": (RICH + ["READONLY"], [{"op": "handle", "name": "a", "types": [True, False, True], "strategy": "update", "result": RESULT}]),
 }
 # runtime phases through the real executable
 RUNTIME = {
@@ -108,12 +111,16 @@ def prepare(root, name):
     env = {"VERIF_HASH_SEED": "7", "LD_PRELOAD": SHIM}
     if name in OPS:
         prep, op = OPS[name]
+        readonly = "READONLY" in prep
+        prep = [x for x in prep if x != "READONLY"]
         if prep:
             ps = os.path.join(sdir, "prep.json")
             json.dump({"ops": prep}, open(ps, "w"))
             r = subprocess.run([OPRUNNER, root, ps], env=env, stdout=subprocess.PIPE, stderr=subprocess.PIPE)
             if r.returncode != 0:
                 raise Machinery(f"C12 preparation of {name} failed: {r.stdout!r} {r.stderr!r}")
+        if readonly:
+            os.chmod(os.path.join(root, "layers", "a"), 0o555)
         s = os.path.join(sdir, "op.json")
         json.dump({"ops": op}, open(s, "w"))
         return [OPRUNNER, root, s], env, root
